@@ -64,6 +64,30 @@ Theorem C04_ref_address : forall all c n target acc addr ao rv rep r,
             m_rep := match rep with Some x => Some x | None => rg_repeat r end |}.
 Proof. intros. cbn. rewrite H. reflexivity. Qed.
 
+(* The same for command refs and block refs (rounds 8-10 of the seeded changes went for exactly these: the target's REPEAT
+   winning over the ref's, a block ref without ADDRESS_OFFSET placed at 0): the ref's own value where it gives one, the
+   target's otherwise; a block ref leads to the TARGET's objects. *)
+Theorem C04_command_ref_address : forall all c n target addr ao rep cm,
+  find_object all target = Some (OCommand cm) ->
+  method_of all (ORef c n (OvCommand target addr ao rep)) =
+    Some {| m_name := meth_name n; m_kind := KCmd;
+            m_addr := match addr with Some a => a | None => cm_address cm end;
+            m_rep := match rep with Some x => Some x | None => cm_repeat cm end |}.
+Proof. intros. cbn. rewrite H. reflexivity. Qed.
+
+Theorem C04_block_ref_address : forall all c n target off rep bc bn toff trep objs,
+  find_object all target = Some (OBlock bc bn toff trep objs) ->
+  method_of all (ORef c n (OvBlock target off rep)) =
+    Some {| m_name := meth_name n; m_kind := KBlock;
+            m_addr := match off with Some a => a | None => toff end;
+            m_rep := match rep with Some x => Some x | None => trep end |}.
+Proof. intros. cbn. rewrite H. reflexivity. Qed.
+
+Theorem C04_block_ref_leads_to_the_targets_objects : forall all c n target off rep bc bn toff trep objs,
+  find_object all target = Some (OBlock bc bn toff trep objs) ->
+  block_children all (ORef c n (OvBlock target off rep)) = Some objs.
+Proof. intros. cbn. rewrite H. reflexivity. Qed.
+
 (* read_all_registers visits exactly the readable registers of the block (refs with overridden access
    included), every repeat index 0..count-1, in declaration order. *)
 Theorem C04_read_all_visits : forall it lv all objs,
@@ -150,6 +174,9 @@ Print Assumptions C04_address_exact_release.
 Print Assumptions C04_index_guard.
 Print Assumptions C04_index_guard_chain.
 Print Assumptions C04_ref_address.
+Print Assumptions C04_command_ref_address.
+Print Assumptions C04_block_ref_address.
+Print Assumptions C04_block_ref_leads_to_the_targets_objects.
 Print Assumptions C04_read_all_visits.
 Print Assumptions C04_read_all_reports_bus_address_nonroot.
 Print Assumptions C04_read_all_reports_bus_address_root.
